@@ -317,12 +317,18 @@ var _ = entry.Entry{}
 // sysHead builds one head of a decoded head-exchange message in which every
 // structurally optional part is independently absent or present (what
 // json.Unmarshal can produce from attacker-chosen bytes).
-func sysHead(logID string, writer string, k int) *entry.Entry {
+func sysHead(logID string, writer string, k int, victim ipfslog.Entry) *entry.Entry {
 	if vstub.NdChoice("head-nil", 2) == 1 {
 		return nil // JSON null
 	}
 	e := &entry.Entry{LogID: logID, V: 2, Payload: []byte("x")}
-	switch vstub.NdChoice("identity", 3) {
+	copied := false
+	switch vstub.NdChoice("identity", 4) {
+	case 3: // identity block, key and signature copied from a real entry; the payload differs
+		e.Identity = victim.GetIdentity()
+		e.Key = victim.GetKey()
+		e.Sig = victim.GetSig()
+		copied = true
 	case 0: // absent
 	case 1:
 		e.Identity = &idp.Identity{ID: writer, PublicKey: []byte("pk-mallory"), Type: "orbitdb"}
@@ -333,10 +339,14 @@ func sysHead(logID string, writer string, k int) *entry.Entry {
 	if vstub.NdChoice("clock", 2) == 1 {
 		e.Clock = &entry.LamportClock{ID: []byte("pk-mallory"), Time: vstub.NdInt("time")}
 	}
-	if vstub.NdChoice("hash", 2) == 1 {
+	switch vstub.NdChoice("hash", 3) {
+	case 1:
 		e.Hash = vstub.MkCid(100 + k)
+	case 2:
+		// announced under the address of a valid entry the replica has not merged yet
+		e.Hash = victim.GetHash()
 	}
-	if vstub.NdChoice("keysig", 2) == 1 {
+	if !copied && vstub.NdChoice("keysig", 2) == 1 {
 		e.Key = []byte("pk-mallory")
 		e.Sig = []byte("garbage")
 	}
@@ -446,7 +456,7 @@ func VerifSysMalformed() {
 		n := 1 + vstub.NdChoice("nheads", vstub.Param("H", 1))
 		var heads []*entry.Entry
 		for k := 0; k < n; k++ {
-			heads = append(heads, sysHead(addrA, a.env.Identity.ID, k))
+			heads = append(heads, sysHead(addrA, a.env.Identity.ID, k, first))
 		}
 		payload, err = a.o.messageMarshaler.Marshal(&iface.MessageExchangeHeads{Address: address, Heads: heads})
 		vstub.Cover("malformed-heads")
@@ -784,4 +794,47 @@ func VerifSysClose() {
 		vstub.Assert(sysHolds(ra, late), "C18 a write acknowledged while Close was running is there after reopening")
 	}
 	_ = nb.o.Close()
+}
+
+// VerifSysOpenRace (C02): a peer (re)opens a database while another replica that
+// holds acknowledged writes is connected and idle (writes have stopped).  The
+// opening peer's subscription makes the other side see it join and send its
+// heads over the direct channel AT ONCE - possibly before Open has returned.
+// Under every schedule with at most P preemptions of the opening thread and the
+// threads it starts, the opened replica ends up holding every acknowledged
+// write once everything is quiet.
+func VerifSysOpenRace() {
+	w := newSysWorld()
+	a := w.boot("a", nil, false)
+	if a == nil {
+		return
+	}
+	sa := a.create("dbA", "eventlog")
+	if sa == nil {
+		return
+	}
+	addrA := sa.Address().String()
+	n := 1 + vstub.NdChoice("writes", 2)
+	for k := 0; k < n; k++ {
+		if a.add(addrA, 'a') == nil {
+			return
+		}
+	}
+	vstub.WaitIdle()
+	b := w.boot("b", nil, false)
+	if b == nil {
+		return
+	}
+	vstub.ExploreSchedules(vstub.Param("P", 1))
+	st, err := b.o.Open(context.Background(), addrA, &CreateDBOptions{IO: b.env.IO})
+	vstub.ExploreSchedules(0)
+	if err != nil {
+		vstub.Fail("sys: Open failed")
+		return
+	}
+	vstub.WaitIdle()
+	vstub.Cover("opened")
+	for _, e := range w.acks[addrA] {
+		vstub.Assert(sysHolds(st, e), "C02 a replica that joins while writes have stopped receives every acknowledged write")
+	}
 }
